@@ -35,6 +35,12 @@ pub enum R {
     /// a row can compose to the identity map
     #[serde(alias = "PermXyz")]
     PermXyz { t: u16, perm: u8 },
+    /// remap_xyz that replaces ONE axis by entry `e` and keeps the two others
+    RemapOne { t: u16, axis: u8, e: u16 },
+    /// one shape placed twice along one axis: op(T(p + a e_axis), T(p + b e_axis))
+    /// in quarter units, each copy through remap_xyz (axis + constant) or
+    /// remap_affine (translation); the two frames agree on the two other axes
+    Stack { t: u16, axis: u8, a: i8, b: i8, affine: bool, op: BinOp },
 }
 
 const PERMS3: [[usize; 3]; 6] = [[0, 1, 2], [0, 2, 1], [1, 0, 2], [1, 2, 0], [2, 0, 1], [2, 1, 0]];
@@ -115,6 +121,30 @@ fn build(nodes: &[R]) -> Vec<Tree> {
                 let ax = |k: usize| [Tree::x(), Tree::y(), Tree::z()][k].clone();
                 let q = PERMS3[*perm as usize % 6];
                 out[sel(*t, i)].remap_xyz(ax(q[0]), ax(q[1]), ax(q[2]))
+            }
+            R::RemapOne { t, axis, e } => {
+                let mut ax = [Tree::x(), Tree::y(), Tree::z()];
+                ax[*axis as usize % 3] = out[sel(*e, i)].clone();
+                let [x, y, z] = ax;
+                out[sel(*t, i)].remap_xyz(x, y, z)
+            }
+            R::Stack { t, axis, a, b, affine: aff, op } => {
+                let target = &out[sel(*t, i)];
+                let place = |k: i8| {
+                    let k = k as f32 / 4.0;
+                    if *aff {
+                        let mut m = vec![4i8, 0, 0, 0, 0, 4, 0, 0, 0, 0, 4, 0];
+                        m[(*axis as usize % 3) * 4 + 3] = (k * 4.0) as i8;
+                        target.remap_affine(affine(&m))
+                    } else {
+                        let mut ax = [Tree::x(), Tree::y(), Tree::z()];
+                        let a = *axis as usize % 3;
+                        ax[a] = ax[a].clone() + Tree::constant(k);
+                        let [x, y, z] = ax;
+                        target.remap_xyz(x, y, z)
+                    }
+                };
+                tree_binary(*op, &place(*a), &place(*b))
             }
         };
         out.push(t);
@@ -218,6 +248,20 @@ fn eval(nodes: &[R], i: usize, p: [f64; 3], vars: &[f64; 3], ex: &mut Exact, dep
             let q = PERMS3[*perm as usize % 6];
             eval(nodes, sel(*t, i), [p[q[0]], p[q[1]], p[q[2]]], vars, ex, depth + 1)
         }
+        R::RemapOne { t, axis, e } => {
+            let mut q = p;
+            q[*axis as usize % 3] = eval(nodes, sel(*e, i), p, vars, ex, depth + 1);
+            eval(nodes, sel(*t, i), q, vars, ex, depth + 1)
+        }
+        R::Stack { t, axis, a, b, op, .. } => {
+            let mut at = |k: i8| {
+                let mut q = p;
+                q[*axis as usize % 3] = ex.see(q[*axis as usize % 3] + k as f64 / 4.0);
+                eval(nodes, sel(*t, i), q, vars, ex, depth + 1)
+            };
+            let (u, v) = (at(*a), at(*b));
+            bin64(*op, u, v)
+        }
     };
     ex.see(v)
 }
@@ -234,6 +278,8 @@ fn cost(nodes: &[R]) -> Vec<f64> {
                 1.0 + c[sel(*t, i)] + c[sel(*x, i)] + c[sel(*y, i)] + c[sel(*z, i)]
             }
             R::RemapAffine { t, .. } | R::PermXyz { t, .. } => 1.0 + c[sel(*t, i)],
+            R::RemapOne { t, e, .. } => 1.0 + c[sel(*t, i)] + c[sel(*e, i)],
+            R::Stack { t, .. } => 3.0 + 2.0 * c[sel(*t, i)],
             _ => 1.0,
         };
         c.push(v);
@@ -299,6 +345,10 @@ impl Prop for P {
                 // most often aimed at the newest entry (selector 0xffff)
                 1 => prop_oneof![3 => Just(u16::MAX), 1 => s()].prop_map(|t| R::UndoAffine { t }),
                 2 => (prop_oneof![3 => Just(u16::MAX), 1 => s()], 0u8..6).prop_map(|(t, perm)| R::PermXyz { t, perm }),
+                2 => (s(), 0u8..3, s()).prop_map(|(t, axis, e)| R::RemapOne { t, axis, e }),
+                2 => (prop_oneof![2 => Just(u16::MAX), 1 => s()], 0u8..3, -8i8..=8, -8i8..=8, any::<bool>(),
+                      prop_oneof![Just(BinOp::Add), Just(BinOp::Sub), Just(BinOp::Min), Just(BinOp::Max)])
+                    .prop_map(|(t, axis, a, b, affine, op)| R::Stack { t, axis, a, b, affine, op }),
             ]
         };
         let max = tier.pick(24, 40);
@@ -369,6 +419,16 @@ impl Prop for P {
             match n {
                 R::RemapXyz { .. } => kinds.0 += 1,
                 R::RemapAffine { .. } => kinds.1 += 1,
+                R::RemapOne { .. } => {
+                    kinds.0 += 1;
+                    cx.ev.count("single_axis_remaps");
+                }
+                R::Stack { affine, a, b, .. } => {
+                    if *affine { kinds.1 += 2 } else { kinds.0 += 2 }
+                    if a != b {
+                        cx.ev.count("one_shape_placed_twice_along_one_axis");
+                    }
+                }
                 _ => {}
             }
         }
